@@ -462,10 +462,17 @@ func addSingles(g *core.G, o *core.TreeOpts, n *core.N) {
 	}
 }
 
+// big: thorough tier only — a share of the collections has up to 18 taxa and up to 20 trees
+var big bool
+
 func collection(g *core.G) ([]*core.N, core.TreeOpts) {
 	o := baseOpts(g)
-	base, _ := g.Tree(o)
 	sizes := []int{1, 2, 2, 3, 3, 4, 4, 4, 5, 6, 6, 8, 8, 10, 12}
+	if big && g.Chance(0.03) {
+		o.MinTips, o.MaxTips = 10, 18
+		sizes = []int{7, 12, 16, 20}
+	}
+	base, _ := g.Tree(o)
 	k := sizes[g.Intn(len(sizes))]
 	pC := []float64{0, 0.1, 0.3, 0.5}[g.Intn(4)]
 	pN := []float64{0, 0.1, 0.3}[g.Intn(3)]
@@ -521,6 +528,7 @@ func Run(c *core.Ctx) {
 		Replay(c, core.ReadRequests(c.Arg))
 		return
 	}
+	big = !c.Quick()
 	n := c.Scale(400, 10000)
 	for i := 0; i < n; i++ {
 		genCase(c, false)
